@@ -66,6 +66,7 @@ type Engine struct {
 	NoPrune   bool
 	globalsInit map[*ssa.Global]*Term
 	keySort map[string]*Sort
+	nonNilGlobals map[string]bool // "global!<pkg>.<name>": declared `//@ nonnil` in a contract file
 	allFns map[*ssa.Function]bool
 }
 
@@ -159,6 +160,17 @@ func Load(cfg Config) (*Engine, error) {
 		}
 		if cs := setsByDir[dir]; cs != nil {
 			e.Sets[p.PkgPath] = cs
+		}
+	}
+	e.nonNilGlobals = map[string]bool{}
+	for path, cs := range e.Sets {
+		for _, cf := range cs.Files {
+			for _, n := range cf.NonNil {
+				if sp := e.SSAPkgs[path]; sp != nil {
+					e.nonNilGlobals["global!"+sp.Pkg.Name()+"."+n] = true
+					e.warn("assumed: package-level variable %s.%s is non-nil (declared //@ nonnil)", sp.Pkg.Name(), n)
+				}
+			}
 		}
 	}
 	// resolve contract blocks
